@@ -1009,6 +1009,8 @@ class World:
                 if last_ok is not None and vname in ("aes_hmac", "aes_rand", "rsa", "aes_hmac~delayed"):
                     from dissect.cobaltstrike.c2 import BeaconKeys
                     idx, http, want = last_ok
+                    if isinstance(http, HttpResponse) and not self._check_tampered_twin(kk, vname, dec, idx, http, want):
+                        continue
                     aes_key, hmac_key = rc.derive_keys(st["keys"][0])
                     bit = core.draw(self.run_seed, "wrongkey", kk, vname) % 128
                     bad = bytearray(hmac_key)
@@ -1037,6 +1039,50 @@ class World:
                             self.violate("C07", "decoder_changed_by_rejected_keys", vname,
                                          f"decoder {vname} no longer decodes message {idx} of client {kk} after a call with other keys= "
                                          f"was rejected: {again!r:.300}")
+
+    def _check_tampered_twin(self, kk, vname, dec, idx, http, want) -> bool:
+        """The decoder object has just decoded the task response `http`. It is now shown a twin of that message whose
+        ciphertext differs in one bit while the signature is the genuine one (re-encoded with the reference codec under the
+        server program): rejected with ValueError, whatever the object has authenticated before; the genuine message still
+        decodes afterwards."""
+        from dissect.cobaltstrike.c2 import HttpResponse
+        steps = self.cfg["server"]
+        try:
+            raw = rc.ref_decode_response_body(steps, http.body)
+        except rc.RefDecodeError:
+            return True
+        if len(raw) < 32:
+            return True
+        pos = core.draw(self.run_seed, "twin", kk, vname) % (len(raw) - 16)
+        bit = core.draw(self.run_seed, "twinbit", kk, vname) % 8
+        tampered = raw[:pos] + bytes([raw[pos] ^ (1 << bit)]) + raw[pos + 1:]
+        nm = sum(1 for s_ in steps if s_[0] == "mask")
+        mks = [core.draw(self.run_seed, "twinmask", kk, vname, j).to_bytes(8, "big")[-4:] for j in range(nm)]
+        body2 = rc.ref_encode_response_body(steps, tampered, mks, False)
+        twin = HttpResponse(status=http.status, reason=http.reason, headers=dict(http.headers), body=body2, request=http.request)
+        self.res.probes["used_decoder_tampered_twin"] += 1
+        try:
+            out = list(dec.iter_recover_http(twin))
+            exc = None
+        except Exception as e:  # noqa: BLE001
+            out, exc = None, e
+        self.res.log.log("decode_twin", kk, vname, idx, type(exc).__name__ if exc else len(out))
+        if not isinstance(exc, ValueError):
+            self.violate("C05", "used_decoder_accepts_tampered_twin", vname,
+                         f"decoder {vname}, after decoding task response {idx} of client {kk}, shown the same response with bit {bit} of "
+                         f"ciphertext byte {pos} flipped under the genuine signature: "
+                         f"{'returned ' + repr(_show(out))[:200] if exc is None else 'raised ' + repr(exc)[:200]} instead of raising ValueError")
+            return False
+        try:
+            again = list(dec.iter_recover_http(http))
+        except Exception as e:  # noqa: BLE001
+            again = e
+        if isinstance(again, Exception) or not _same_packets(again, want):
+            self.violate("C07", "decoder_changed_by_rejected_twin", vname,
+                         f"decoder {vname} no longer decodes task response {idx} of client {kk} after a tampered twin of it was "
+                         f"rejected: {again!r:.300}")
+            return False
+        return True
 
     def _check_shared_rsa_decoder(self):
         """ONE decoder holding only the RSA key sees the traffic of all beacons: it follows the session of the beacon that
